@@ -6,8 +6,19 @@ Executable statement of property C07.
 what "a plain JSON parser recovers" and what "JSON written by a plain serializer" means. It never
 calls the library's decoder (`JsonIO.decode`/`objectHook`).
 
+There are TWO plain readers, differing only in how a date string is read:
+* `plainRead`       — dates by the lenient `strptime("%Y-%m-%d")` rules (`2020-1-5` accepted): the
+                      domain of clause "JSON written by such a plain serializer is loaded correctly"
+                      (`fromDict_plain`), kept as wide as the decoder's own tolerance;
+* `plainReadStrict` — dates by `strictIso`: exactly `YYYY-MM-DD`, ten characters, ASCII digits, a
+                      real calendar date; written here from ISO 8601, it does not use the model's
+                      `parseIso`. This is the reader of clause "each cell with ISO dates": what the
+                      LIBRARY writes must pass it (`textSpec`).
+`Lemmas/JsonIOStrict.lean`: `strictIso s = some d → parseIso s = .ok d` and
+`plainReadStrict j = some cells → plainRead j = some cells` (the strict reader is a restriction).
+
 The Spec predicates are run by the driver on the IMPLEMENTATION's outputs:
-* `textSpec t j`   — `j = json.loads(t.to_json())` read plainly gives the original cells
+* `textSpec t j`   — `j = json.loads(t.to_json())` read plainly AND STRICTLY gives the original cells
 * `loadSpec t out` — `out = from_json(...)` is the original triangle (cell by cell, kinds of numbers,
                      None, array order, prev dates, class)
 -/
@@ -137,6 +148,78 @@ def plainRead : JVal → Option (List JCell)
   | .obj [("slices", .arr ss)] => (ss.mapM readSlice).map List.flatten
   | _ => none
 
+/-! ### the strict reading: ISO 8601 calendar dates `YYYY-MM-DD` and nothing else -/
+
+def isoDigit? (c : Char) : Option Nat :=
+  if 48 ≤ c.toNat ∧ c.toNat ≤ 57 then some (c.toNat - 48) else none
+
+/-- ISO 8601 extended calendar date: exactly ten characters `YYYY-MM-DD`, ASCII digits, hyphens at
+positions 4 and 7, year ≥ 1, a real day of a real month. No padding variants, no sign, no spaces. -/
+def strictIso (s : String) : Option Date :=
+  match s.toList with
+  | [y1, y2, y3, y4, s1, m1, m2, s2, d1, d2] =>
+    if s1 == '-' && s2 == '-' then
+      match isoDigit? y1, isoDigit? y2, isoDigit? y3, isoDigit? y4,
+            isoDigit? m1, isoDigit? m2, isoDigit? d1, isoDigit? d2 with
+      | some a, some b, some c, some d, some e, some f, some g, some h =>
+        let dt : Date := ⟨((1000 * a + 100 * b + 10 * c + d : Nat) : Int), 10 * e + f, 10 * g + h⟩
+        if 1 ≤ dt.y && dt.valid then some dt else none
+      | _, _, _, _, _, _, _, _ => none
+    else none
+  | _ => none
+
+def readDateS (kvs : List (String × JVal)) (k : String) : Option Date :=
+  match jLookup kvs k with
+  | some (.str s) => strictIso s
+  | _ => none
+
+def readPrevS (kvs : List (String × JVal)) : Option (Option Date) :=
+  if (kvs.map (·.1)).contains "prev_evaluation_date" then
+    (readDateS kvs "prev_evaluation_date").map some
+  else some none
+
+/-- `readCell` with strict ISO dates -/
+def readCellS : JVal → Option JCell
+  | .obj kvs =>
+    if nodupKeys (kvs.map (·.1)) && (kvs.map (·.1)).all cellKeys.contains then
+      (readDateS kvs "period_start").bind fun ps =>
+      (readDateS kvs "period_end").bind fun pe =>
+      (readDateS kvs "evaluation_date").bind fun ev =>
+      (readPrevS kvs).bind fun prev =>
+      (readValues kvs).bind fun values =>
+      let c := mkObservation ((kvs.map (·.1)).contains "prev_evaluation_date") ps pe ev prev values
+      if c.datesOk then some c else none
+    else none
+  | _ => none
+
+def readCellsS (kvs : List (String × JVal)) : Option (List JCell) :=
+  match jLookup kvs "cells" with
+  | some (.arr cs) => cs.mapM readCellS
+  | _ => none
+
+/-- `readSlice` with strict ISO dates in its cells -/
+def readSliceS : JVal → Option (List JCell)
+  | .obj kvs =>
+    if nodupKeys (kvs.map (·.1)) && (kvs.map (·.1)).all sliceKeys.contains then
+      (readStrAttr kvs "risk_basis" (some "Accident")).bind fun rb =>
+      (readStrAttr kvs "country" none).bind fun co =>
+      (readStrAttr kvs "currency" none).bind fun cu =>
+      (readStrAttr kvs "reinsurance_basis" none).bind fun re =>
+      (readStrAttr kvs "loss_definition" none).bind fun ld =>
+      (readLimit kvs).bind fun lim =>
+      (readDetails kvs "details").bind fun det =>
+      (readDetails kvs "loss_details").bind fun ldet =>
+      (readCellsS kvs).map fun l => l.map fun c =>
+        { c with md := { riskBasis := rb, country := co, currency := cu, reinsuranceBasis := re,
+                         lossDefinition := ld, limit := lim, details := det, lossDetails := ldet } }
+    else none
+  | _ => none
+
+/-- the whole document, every date strictly `YYYY-MM-DD` -/
+def plainReadStrict : JVal → Option (List JCell)
+  | .obj [("slices", .arr ss)] => (ss.mapM readSliceS).map List.flatten
+  | _ => none
+
 /-! ### comparison up to the insertion order of dict keys (not part of the property) -/
 
 def sortByKey {α} (d : Dict α) : Dict α := d.mergeSort fun a b => compare a.1 b.1 != .gt
@@ -148,9 +231,10 @@ def JCell.canon (c : JCell) : JCell :=
 
 def sameCells (a b : List JCell) : Bool := a.map JCell.canon == b.map JCell.canon
 
-/-- the text's AST, read plainly, is the original triangle (as typed cells, same order) -/
+/-- the text's AST, read plainly with STRICT ISO dates, is the original triangle (as typed cells,
+same order) -/
 def textSpec (t : List JCell) (j : JVal) : Bool :=
-  match plainRead j with
+  match plainReadStrict j with
   | some cells => sameCells cells (asTyped t)
   | none => false
 
